@@ -15,7 +15,7 @@ from mc.drivers import stores as S
 from mc.lattice import Emb, chunked
 
 BOUNDS = {
-    "quick": {"max_len": 4, "lattice": "0..5", "labels": 2, "pulsetimes_units": [0, 1], "units_us": [1_000_000], "sub_second": "all streams of <=3 heartbeats on 0..4 at 1 ms and 100 ms units", "noise": "all streams of 2-3 heartbeats on 0..4 x every sequence of {read other bucket, rejected delete / update of a missing bucket} between the heartbeats"},
+    "quick": {"max_len": 4, "lattice": "0..5", "labels": 2, "pulsetimes_units": [0, 1], "units_us": [1_000_000], "sub_second": "all streams of <=3 heartbeats on 0..4 at 1 ms and 100 ms units", "noise": "all streams of 2-3 heartbeats on 0..4 x every sequence of {read other bucket, rejected delete / update of a missing bucket, delete of the oldest event of the heartbeat bucket} between the heartbeats"},
     "thorough": {"max_len": 5, "lattice": "0..6", "labels": 2, "pulsetimes_units": [0, 0.5, 1, 2], "units_us": [1_000_000, 1_000]},
 }
 RULE = (
@@ -79,7 +79,7 @@ def _content(e):
     return (S.us_of(e.timestamp), S.dus_of(e.duration), S.canon_data(e.data))
 
 
-NOISE = ("none", "read-other", "failed-delete-of-missing-bucket", "failed-update-of-missing-bucket")
+NOISE = ("none", "read-other", "failed-delete-of-missing-bucket", "failed-update-of-missing-bucket", "delete-oldest-event")
 
 
 def do_noise(ds, name):
@@ -165,9 +165,18 @@ def run_stream_noise(ds, backend, emb, stream, p_units, u, other0, labs, noise, 
     S.mk_bucket(ds, bid)
     b = ds[bid]
     pulsetime = p_units * emb.unit_us / 1_000_000
+    deleted = []
     for n, (s, d, lab) in enumerate(stream):
         if n > 0:
-            do_noise(ds, noise[n - 1])
+            if noise[n - 1] == "delete-oldest-event":
+                # a user deletes an OLDER event of the heartbeat bucket itself (never the newest one):
+                # later heartbeats only touch the newest event, so it simply stays deleted
+                evs = b.get(-1)
+                if len(evs) >= 2:
+                    b.delete(evs[-1].id)
+                    deleted.append(_content(evs[-1]))
+            else:
+                do_noise(ds, noise[n - 1])
         try:
             how = ingest(b, emb.ev(s, d, labs[lab]), pulsetime)
         except Exception as e:
@@ -175,8 +184,15 @@ def run_stream_noise(ds, backend, emb, stream, p_units, u, other0, labs, noise, 
         u.transitions += 1
         u.evaluations += 1
         u.hist[how] += 1
-    got = sorted(t[1:] for t in S.dump_bucket(ds, bid))
-    want = sorted(_content(e) for e in heartbeat_reduce([emb.ev(*x[:2], labs[x[2]]) for x in stream], pulsetime))
+    dump = S.dump_bucket(ds, bid)
+    got = sorted(t[1:] for t in dump)
+    if len({t[0] for t in dump}) != len(dump):
+        return [("event-ids-not-unique", f"after the stream the bucket holds ids {[t[0] for t in dump]}", len(stream) - 1)]
+    want = [_content(e) for e in heartbeat_reduce([emb.ev(*x[:2], labs[x[2]]) for x in stream], pulsetime)]
+    for c in deleted:
+        if c in want:
+            want.remove(c)
+    want = sorted(want)
     probs = []
     if got != want:
         probs.append(("bucket-differs-from-reduce", f"after the stream the bucket holds {got} != heartbeat_reduce {want}", len(stream) - 1))
